@@ -1667,6 +1667,8 @@ def inverse_consistency_loss(
             m = [max(0, int(margin))] * grid.ndim
         subgrid = tuple(reversed([slice(i, n - i) for i, n in zip(m, grid.size())]))
         error = error[(slice(0, error.shape[0]),) + subgrid + (slice(0, grid.ndim),)]
+        if mask is not None:
+            mask = mask[(slice(0, mask.shape[0]), slice(0, 1)) + subgrid]
     # Scale differences by respective error units
     if units in ("voxel", "world"):
         error = denormalize_flow(
@@ -1680,9 +1682,10 @@ def inverse_consistency_loss(
     if reduction != "none":
         count = error.numel()
         error = error.sum()
-        if reduction == "mean" and mask is not None:
-            count = (mask != 0).sum()
-        error /= count
+        if reduction == "mean":
+            if mask is not None:
+                count = (mask != 0).sum()
+            error /= count
     return error
 
 
